@@ -452,16 +452,74 @@ GETTERS = ['get_byte', 'get_boolean', 'get_uint16', 'get_uint32', 'get_uint64', 
            'get_namelist', 'check_end']
 
 
+class GetterMismatch(Exception):
+    """an SSHPacket getter returned something else than the bytes in front of it say"""
+
+
+def _ref_getter(name: str, body: bytes, idx: int) -> Tuple[Any, int]:
+    """reference semantics of one getter on body[idx:] (returns value, new index; raises IndexError when the
+    field does not fit)"""
+    def need(k: int) -> bytes:
+        if idx + k > len(body):
+            raise IndexError
+        return body[idx:idx + k]
+    if name == 'get_byte':
+        return need(1)[0], idx + 1
+    if name == 'get_boolean':
+        return need(1)[0] != 0, idx + 1
+    if name in ('get_uint16', 'get_uint32', 'get_uint64'):
+        k = {'get_uint16': 2, 'get_uint32': 4, 'get_uint64': 8}[name]
+        return int.from_bytes(need(k), 'big'), idx + k
+    if name in ('get_string', 'get_mpint', 'get_namelist'):
+        n = int.from_bytes(need(4), 'big')
+        if idx + 4 + n > len(body):
+            raise IndexError
+        sv = body[idx + 4:idx + 4 + n]
+        if name == 'get_string':
+            return sv, idx + 4 + n
+        if name == 'get_mpint':
+            return int.from_bytes(sv, 'big', signed=True), idx + 4 + n
+        return (sv.split(b',') if sv else []), idx + 4 + n
+    if name == 'check_end':
+        if idx != len(body):
+            raise IndexError
+        return None, idx
+    raise KeyError(name)
+
+
 def t_ssh_packet(data: bytes) -> Any:
-    """layout: first byte n, then n getter selectors, then the packet"""
+    """layout: first byte n, then n getter selectors, then the packet.  Every getter result is compared with a
+    reference reading of the same bytes: a value where the reference says "does not fit" is an over-read."""
     if not data:
         return None
     n = data[0] % 12
     sel = data[1:1 + n]
-    pkt = packetmod.SSHPacket(data[1 + n:])
+    body = data[1 + n:]
+    pkt = packetmod.SSHPacket(body)
     out = []
+    idx = 0
     for s in sel:
-        out.append(getattr(pkt, GETTERS[s % len(GETTERS)])())
+        name = GETTERS[s % len(GETTERS)]
+        try:
+            want, nidx = _ref_getter(name, body, idx)
+            fits = True
+        except IndexError:
+            want, nidx, fits = None, idx, False
+        try:
+            got = getattr(pkt, name)()
+        except packetmod.PacketDecodeError:
+            if fits:
+                raise GetterMismatch(f'{name} raised PacketDecodeError although the field fits (offset {idx})')
+            raise
+        if not fits:
+            raise GetterMismatch(f'{name} returned {got!r:.60} although only {len(body) - idx} bytes remained '
+                                 f'(offset {idx})')
+        if (list(got) if name == 'get_namelist' else got) != want:
+            raise GetterMismatch(f'{name} returned {got!r:.60}, the bytes say {want!r:.60}')
+        idx = nidx
+        if len(pkt.get_remaining_payload()) != len(body) - idx:
+            raise GetterMismatch(f'{name} left {len(pkt.get_remaining_payload())} unread bytes, expected {len(body) - idx}')
+        out.append(got)
     return out
 
 
@@ -602,8 +660,12 @@ def gen_case(target: str, rng: random.Random) -> bytes:
 def classify(target: str, exc: BaseException) -> Tuple[str, Optional[str]]:
     """(histogram key, failure signature or None)"""
     _fn, documented = TARGETS[target]
-    name = type(exc).__name__
+    import re as _re
+    name = 're.error' if isinstance(exc, _re.error) else type(exc).__name__
     fn_name = target.split(':')[0]
+    if isinstance(exc, GetterMismatch):
+        return 'getter-mismatch', 'c10:getter-overread-or-mismatch:SSHPacket'
+
     if isinstance(exc, Budget):
         return 'budget', f'spins:{fn_name}'
     if isinstance(exc, documented) and not isinstance(exc, NOT_DOCUMENTED_SUBCLASSES):
